@@ -2,8 +2,9 @@
 
 Two populations, reported separately in the evidence file:
   in_model       the operator core (lib/props/c01core.py), the query core -- the SELECT / query skeleton
-                 (lib/props/c01query.py) -- and the DDL core -- CREATE TABLE with column definitions
-                 (lib/props/c01ddl.py) --, proved in Coq and tied to the implementation;
+                 (lib/props/c01query.py) --, the DDL core -- CREATE TABLE with column definitions
+                 (lib/props/c01ddl.py) -- and the DML core -- INSERT / UPDATE / DELETE (lib/props/c01dml.py) --,
+                 proved in Coq and tied to the implementation;
   outside_model  the rest of the grammar: the property itself evaluated on the implementation as search
                  (harness/rtx `roundtrip` / `splice`), every failure mapped to a root-cause key (lib/rtlib.py).
 """
@@ -81,6 +82,18 @@ def check(run):
                 traceback.print_exc()
                 run.violation({"what": "the DDL-core tables (coq/gen/DdlTables.v, DataTypeTables.v) could not be regenerated", "unchecked": "C01 DDL core (lib/props/c01ddl.py)",
                                "tool_output": (str(e) or repr(e))[-3000:]}, no_input=True)
+            # coq/gen/DmlTables.v (INSERT / UPDATE / DELETE; refers to QueryTables.v) is required by coq/Properties/C01.v too
+            c01dml = importlib.import_module("props.c01dml")
+            mtables = None
+            if qtables is not None:
+                try:
+                    mtables = c01dml.gen_dml_tables()
+                except BuildFailed:
+                    raise
+                except Exception as e:
+                    traceback.print_exc()
+                    run.violation({"what": "the DML-core tables (coq/gen/DmlTables.v) could not be regenerated", "unchecked": "C01 DML core (lib/props/c01dml.py)",
+                                   "tool_output": (str(e) or repr(e))[-3000:]}, no_input=True)
             c01core.check_core(run, PROP)
             if qtables is not None:
                 try:
@@ -99,6 +112,15 @@ def check(run):
                 except Exception as e:
                     traceback.print_exc()
                     run.violation({"what": "the DDL-core (in_model) part of C01 failed to run", "unchecked": "C01 DDL core (lib/props/c01ddl.py)",
+                                   "tool_output": (str(e) or repr(e))[-3000:]}, no_input=True)
+            if mtables is not None:
+                try:
+                    c01dml.check_dml(run, PROP, tables=mtables)
+                except BuildFailed:
+                    raise
+                except Exception as e:
+                    traceback.print_exc()
+                    run.violation({"what": "the DML-core (in_model) part of C01 failed to run", "unchecked": "C01 DML core (lib/props/c01dml.py)",
                                    "tool_output": (str(e) or repr(e))[-3000:]}, no_input=True)
     except BuildFailed:
         raise
